@@ -85,7 +85,7 @@ EXTRA_KNOWN = {
     'log.ValidLogLevel': ('oracle:defined outside src/registry.py and src/conf.py', ('registry.String',), ('__str__', 'set'), ('handler=None', 'minimumLevel=-1')),
     'log.LogLevel': ('oracle:defined outside src/registry.py and src/conf.py', ('ValidLogLevel',), (), ('handler=_handler',)),
     'log.StdoutLogLevel': ('oracle:defined outside src/registry.py and src/conf.py', ('ValidLogLevel',), (), ('handler=_stdoutHandler',)),
-    'log.BooleanRequiredFalseOnWindows': ('oracle:defined outside src/registry.py and src/conf.py', ('registry.Boolean',), ('set',), ()),
+    'log.BooleanRequiredFalseOnWindows': ('oracle:defined outside src/registry.py and src/conf.py', ('registry.Boolean',), ('setValue',), ()),
     'BadWords.LastModifiedSpaceSeparatedSetOfStrings': ('oracle:defined outside src/registry.py and src/conf.py', ('registry.SpaceSeparatedSetOfStrings',), ('setValue',), ('lastModified=0',)),
     'BadWords.LastModifiedCommaSeparatedSetOfStrings': ('oracle:defined outside src/registry.py and src/conf.py', ('registry.CommaSeparatedSetOfStrings',), ('set', 'setValue'), ('lastModified=0',)),
     'BadWords.String256': ('oracle:defined outside src/registry.py and src/conf.py', ('registry.String',), ('__call__', '__str__'), ()),
@@ -329,6 +329,10 @@ def gen_T15():
     cp = tree('plugins/Config/plugin.py')
     need('registry.open_registry(world.registryFilename)' in ast.unparse(find_def(cp, '_reload')), 'Config._reload changed')
     config_reset_forgets()
+    # conf.registerUserValue: the cache scan that re-creates <var>.<user id> (repair of C15.F32), in the style of its siblings
+    ruv = ast.unparse(find_def(cf, 'registerUserValue'))
+    for frag in SCAN + ("if len(parts) == 1 and parts[0].isdigit():", "g.get(parts[0])()", "value._supplyDefault = True", "return g"):
+        need(frag in ruv, 'conf.registerUserValue: cache scan changed (expected `%s`)' % frag)
     # the plugin API: exact descent on the write path, lenient getSpecific on the read path
     cb = tree('src/callbacks.py')
     srv = ast.unparse(find_def(cb, 'setRegistryValue', 'PluginMixin'))
@@ -370,7 +374,7 @@ NONRAISING = {'defaultHttpHeaders(None, None)',     # conf.HttpRequestLanguage /
 NONRAISING_TESTS = {"'-owner' not in set(self.value) and (not allowDefaultOwner)"}
 # classes whose set()/setValue() can raise AFTER the store (genuine defects, recorded as findings): the reject-atomic
 # theorem excludes exactly those of them that are still not atomic in the source being checked
-KNOWN_NONATOMIC = {'log.BooleanRequiredFalseOnWindows': 'C15.F33'}
+KNOWN_NONATOMIC = {}          # C15.F33 (log.BooleanRequiredFalseOnWindows) is repaired: no exception is tolerated any more
 MAXDEPTH = 12
 
 
